@@ -31,7 +31,8 @@ def deref(root, ref):
     if ref == "#":
         return root
     cur = root
-    for tok in ref[2:].split("/"):
+    from urllib.parse import unquote
+    for tok in unquote(ref[2:]).split("/"):
         tok = tok.replace("~1", "/").replace("~0", "~")
         cur = cur[int(tok)] if isinstance(cur, list) else cur[tok]
     return cur
